@@ -405,6 +405,21 @@ def run(chk):
             return False, "the panicking arm must carry panic_lvl and the error (fields used: %s, error: %s)" % seen[True], [], ip[0].loc
         if "lvl" not in seen[False][0] or "panic_lvl" in seen[False][0] or seen[False][1]:
             return False, "the normal arm must carry lvl and no error (fields used: %s, error: %s)" % seen[False], [], ip[0].loc
+        # lookups are first-wins: the completion's own props (level, error) must come *before* the span's props
+        ap = [(x, c) for x in [b] + P.closures_of(b) for c in x.calls(normal_only=True) if c.callee.get("name") == "and_props"]
+        if len(ap) != 1:
+            return False, "expected one and_props joining completion props and span props, found %d" % len(ap), [], b.span
+        xb, c = ap[0]
+        recv = xb.origin(c.args[0])
+        arg = xb.origin(c.args[1])
+        def is_completion_props(o):
+            return any(k == "capture" and "completion_props" in str(v) for k, v in common.roots(o)) or \
+                any(k == "local" and xb.local_name(v) == "completion_props" for k, v in common.roots(o))
+        def is_span_props(o):
+            return any(k == "param" and v >= 2 for k, v in common.roots(o)) and xb.is_closure
+        if not is_completion_props(recv) or is_completion_props(arg):
+            return False, ("the completed event's props are %s.and_props(%s): the completion's level and error must come first so that they win "
+                           "over a `lvl`/`err` the span's own props may carry (first value wins)" % (o_str(recv), o_str(arg))), [], c.loc
         em = b.calls_to(path="emit_core::emit")
         if len(em) != 1 or b.count_on_paths({em[0].bb}) != (1, 1):
             return False, "Default::complete must emit exactly once", [], b.span
